@@ -271,10 +271,12 @@ def v2_world(in_order=(), out_order=(), dialog=False, exceptions=False, extra_co
     w.rails.register_action(w._dialog_action, name="VerifLookupAction")
     if library:
         async def self_check_input(context=None):
-            return w._rail_sync("in1", (context or {}).get("user_message")) is not False
+            r = w._rail_sync("in1", (context or {}).get("user_message"))
+            return None if r is None else (r is not False)     # (an injected `None` result stays None)
 
         async def self_check_output(context=None):
-            return w._rail_sync("out1", (context or {}).get("bot_message")) is not False
+            r = w._rail_sync("out1", (context or {}).get("bot_message"))
+            return None if r is None else (r is not False)
 
         async def jailbreak_heuristics(context=None):
             return w._rail_sync("in1", (context or {}).get("user_message")) is False     # True = jailbreak attempt
